@@ -802,10 +802,8 @@ class NameClashResolver {
 public:
     NameClashResolver(Logic & logic) : logic(logic) {}
 
-    void addForbiddenVar(PTRef var) {
-        assert(logic.isVar(var));
-        forbiddenVars.insert(var);
-    }
+    // No formal parameter may carry the name of a symbol the user declared (of whatever sort or arity)
+    void addForbiddenName(std::string name) { forbiddenNames.insert(std::move(name)); }
 
     void addFunction(SymRef sym) {
         functionsToCheck.insert(sym);
@@ -814,8 +812,13 @@ public:
     std::vector<TemplateFunction> getSafeTemplates(Model const & model) {
         std::vector<TemplateFunction> res;
         unsigned num = 0;
+        // First obtain all definitions: this creates the formal parameters of the default ones, which may collide
+        // (same name, another sort) with parameters of definitions seen earlier
+        std::vector<std::pair<SymRef, TemplateFunction>> templates;
         for (SymRef symRef : functionsToCheck) {
-            auto const & modelTemplate = model.getDefinition(symRef);
+            templates.emplace_back(symRef, model.getDefinition(symRef));
+        }
+        for (auto const & [symRef, modelTemplate] : templates) {
             if (hasClash(modelTemplate)) {
                 auto const & oldArgs = modelTemplate.getArgs();
                 vec<PTRef> newArgs; newArgs.capacity(oldArgs.size());
@@ -825,8 +828,8 @@ public:
                     PTRef var = PTRef_Undef;
                     do {
                         name = getSafePrefix(symRef) + std::to_string(num++);
-                        var = logic.mkVar(logic.getSortRef(oldArg), name.c_str());
-                    } while (forbiddenVars.find(var) != forbiddenVars.end());
+                    } while (logic.hasSym(name.c_str()));
+                    var = logic.mkVar(logic.getSortRef(oldArg), name.c_str());
                     newArgs.push(var);
                     substMap.insert(oldArg, var);
                 }
@@ -842,13 +845,16 @@ public:
     }
 private:
     Logic & logic;
-    std::unordered_set<PTRef, PTRefHash> forbiddenVars;
+    std::unordered_set<std::string> forbiddenNames;
     std::unordered_set<SymRef, SymRefHash> functionsToCheck;
 
+    // A parameter clashes if it is called like a user symbol, or if another nullary symbol (e.g., a parameter of
+    // another definition) has the same name and a different sort: it would be printed as (as x S)
     bool hasClash(TemplateFunction const & templateFunction) {
         auto const & args = templateFunction.getArgs();
         return std::any_of(args.begin(), args.end(), [this](PTRef arg) {
-            return forbiddenVars.find(arg) != forbiddenVars.end();
+            std::string const name = logic.getSymName(arg);
+            return forbiddenNames.find(name) != forbiddenNames.end() or logic.isAmbiguousUninterpretedNullarySymbolName(name);
         });
     }
 
@@ -866,12 +872,12 @@ void Interpret::getModel() {
     ss << "(\n";
     for (SymRef symref : user_declarations) {
         const Symbol & sym = logic->getSym(symref);
+        resolver.addForbiddenName(logic->getSymName(symref));
         if (sym.nargs() == 0) {
             // variable, just get its value
             const char* s = logic->getSymName(symref);
             SRef symSort = sym.rsort();
             PTRef term = logic->mkVar(symSort, s);
-            resolver.addForbiddenVar(term);
             PTRef val = model->evaluate(term);
             ss << printDefinitionSmtlib(term, val);
         } else {
